@@ -135,36 +135,52 @@ func init() {
 		}})
 
 	register(&Rule{ID: "HEIGHT.push-check", Floor: 1,
-		Doc: "in CallStack.PushFID the store to Frames is reachable only through the nil edge of the height check's error, and the non-nil edge returns that error",
+		Doc: "in CallStack.PushFID the store to Frames is reachable only across an edge that establishes the physical height test passed — the comparison written in place, or the nil result of a checking helper (followed through helpers that hand the result on) — and a failed check's error is returned",
 		Run: func(c *Ctx) []Obligation {
 			fn, fd, pkg := c.LookupFunc("lisp.(*CallStack).PushFID")
-			chk := c.LookupMethod("lisp.CallStack.checkHeightPush")
 			frames := c.LookupField("lisp.CallStack.Frames")
-			if fn == nil || chk == nil || frames == nil {
-				return []Obligation{anchorMissing("HEIGHT.push-check", "PushFID/checkHeightPush/Frames")}
+			maxF := c.LookupField("lisp.CallStack.MaxHeightPhysical")
+			if fn == nil || frames == nil || maxF == nil {
+				return []Obligation{anchorMissing("HEIGHT.push-check", "PushFID/Frames/MaxHeightPhysical")}
 			}
 			u := FuncUnit{fn, fd, pkg}
 			info := pkg.TypesInfo
 			fc := c.cfgOf(u, nil)
-			calls := fc.findCalls(chk)
 			var obs []Obligation
-			if len(calls) != 1 {
-				return []Obligation{mkOb(c, "HEIGHT.push-check", u, "call checkHeightPush", fd, Violated, fmt.Sprintf("expected exactly one height check before the push, found %d", len(calls)), true)}
-			}
-			as, _ := fc.Node(calls[0].Loc).(*ast.AssignStmt)
-			var errObj types.Object
-			if as != nil && len(as.Lhs) == 1 {
-				errObj = identObj(info, as.Lhs[0])
-			}
-			if errObj == nil {
-				return []Obligation{mkOb(c, "HEIGHT.push-check", u, "call checkHeightPush", calls[0].Call, Violated, "height check result not bound to a variable", true)}
-			}
-			cut := fc.nilEdges(errObj, true)
-			retOK := false
-			for _, e := range fc.nilEdges(errObj, false) {
-				if fc.edgeReturns(e, errObj) {
-					retOK = true
+			cut := c.physicalPermitEdges(fc, maxF, frames, 0)
+			// the error of a check used as guard is returned on its non-nil edge
+			retOK := true
+			nchk := 0
+			for _, b := range fc.G.Blocks {
+				cond := fc.CondOf(b)
+				if !fc.Live(b) || cond == nil {
+					continue
 				}
+				ast.Inspect(cond, func(n ast.Node) bool {
+					id, ok := n.(*ast.Ident)
+					if !ok {
+						return true
+					}
+					o, ok := info.Uses[id].(*types.Var)
+					if !ok || o.IsField() {
+						return true
+					}
+					ce, _, nd := definingCall(info, fd.Body, o)
+					if ce == nil || nd != 1 || !types.Identical(o.Type(), types.Universe.Lookup("error").Type()) {
+						return true
+					}
+					nchk++
+					ret := false
+					for _, e := range fc.nilEdges(o, false) {
+						if fc.edgeReturns(e, o) {
+							ret = true
+						}
+					}
+					if !ret {
+						retOK = false
+					}
+					return true
+				})
 			}
 			n := 0
 			for _, w := range c.censusFor(nil).WritersOf(frames) {
@@ -177,8 +193,8 @@ func init() {
 					obs = append(obs, mkOb(c, "HEIGHT.push-check", u, "store Frames", w.Node, Undecided, "not locatable", false))
 					continue
 				}
-				if len(cut) > 0 && !fc.reachableAvoiding(loc.B, cut) && fc.Dominates(calls[0].Loc, loc) && retOK {
-					obs = append(obs, mkOb(c, "HEIGHT.push-check", u, "store Frames", w.Node, Proved, "push reachable only when checkHeightPush returned nil; its error is returned otherwise", true))
+				if len(cut) > 0 && !fc.reachableAvoiding(loc.B, cut) && retOK {
+					obs = append(obs, mkOb(c, "HEIGHT.push-check", u, "store Frames", w.Node, Proved, "push reachable only when the height check passed; its error is returned otherwise", true))
 				} else {
 					obs = append(obs, mkOb(c, "HEIGHT.push-check", u, "store Frames", w.Node, Violated, "a frame can be appended without passing the height check (or the check's error is not returned)", true))
 				}
@@ -190,163 +206,76 @@ func init() {
 		}})
 
 	register(&Rule{ID: "HEIGHT.check-chain", Floor: 2,
-		Doc: "checkHeightPush calls checkHeightPhysical and returns its error; checkHeightPhysical refuses when len(Frames) >= MaxHeightPhysical (inclusive, because it runs before the push)",
+		Doc: "the physical height test PushFID relies on (found in PushFID or in the checking helpers it calls) refuses when len(Frames) >= MaxHeightPhysical (inclusive, because it runs before the push): where the comparison is written, a nil result / the fall-through is reachable only when the limit is off or len(Frames) < MaxHeightPhysical",
 		Run: func(c *Ctx) []Obligation {
 			var obs []Obligation
-			fn, fd, pkg := c.LookupFunc("lisp.(*CallStack).checkHeightPush")
-			phys := c.LookupMethod("lisp.CallStack.checkHeightPhysical")
-			if fn == nil || phys == nil {
-				return []Obligation{anchorMissing("HEIGHT.check-chain", "checkHeightPush/checkHeightPhysical")}
-			}
-			u := FuncUnit{fn, fd, pkg}
-			info := pkg.TypesInfo
-			fc := c.cfgOf(u, nil)
-			calls := fc.findCalls(phys)
-			ok := false
-			if len(calls) == 1 {
-				if as, isAs := fc.Node(calls[0].Loc).(*ast.AssignStmt); isAs && len(as.Lhs) == 1 {
-					errObj := identObj(info, as.Lhs[0])
-					for _, e := range fc.nilEdges(errObj, false) {
-						if fc.edgeReturns(e, errObj) {
-							ok = true
-						}
-					}
-				} else if rs, isRet := fc.Node(calls[0].Loc).(*ast.ReturnStmt); isRet && len(rs.Results) == 1 {
-					ok = true
-				}
-			}
-			if ok {
-				obs = append(obs, mkOb(c, "HEIGHT.check-chain", u, "physical check", fd, Proved, "checkHeightPhysical's error is returned", true))
-			} else {
-				obs = append(obs, mkOb(c, "HEIGHT.check-chain", u, "physical check", fd, Violated, "checkHeightPush does not return checkHeightPhysical's error", true))
-			}
-			// inclusive comparison
-			pfn, pfd, ppkg := c.LookupFunc("lisp.(*CallStack).checkHeightPhysical")
+			fn, fd, pkg := c.LookupFunc("lisp.(*CallStack).PushFID")
 			maxF := c.LookupField("lisp.CallStack.MaxHeightPhysical")
 			frames := c.LookupField("lisp.CallStack.Frames")
-			if pfn == nil || maxF == nil || frames == nil {
-				return append(obs, anchorMissing("HEIGHT.check-chain", "checkHeightPhysical/MaxHeightPhysical"))
+			if fn == nil || maxF == nil || frames == nil {
+				return []Obligation{anchorMissing("HEIGHT.check-chain", "PushFID/MaxHeightPhysical/Frames")}
 			}
-			pu := FuncUnit{pfn, pfd, ppkg}
-			pinfo := ppkg.TypesInfo
-			pfc := c.cfgOf(pu, nil)
-			// single-definition local aliases (`limit, height := s.MaxHeightPhysical, len(s.Frames)`)
-			resolve := func(e ast.Expr) ast.Expr {
-				e = ast.Unparen(e)
-				o := identObj(pinfo, e)
-				if o == nil {
-					return e
-				}
-				var def ast.Expr
-				n := 0
-				ast.Inspect(pfd.Body, func(m ast.Node) bool {
-					if as, ok := m.(*ast.AssignStmt); ok && len(as.Lhs) == len(as.Rhs) {
-						for i, l := range as.Lhs {
-							if identObj(pinfo, l) == o {
-								n++
-								def = as.Rhs[i]
-							}
+			u := FuncUnit{fn, fd, pkg}
+			// the function in which the comparison is written
+			var pu FuncUnit
+			found := false
+			for _, hu := range c.withHelpers(u) {
+				cls := heightCls(hu.Pkg.TypesInfo, hu.Decl, maxF, frames)
+				ast.Inspect(hu.Decl.Body, func(n ast.Node) bool {
+					if e, ok := n.(ast.Expr); ok {
+						if nm, _ := cls(e); nm == "full" && !found {
+							pu, found = hu, true
 						}
 					}
 					return true
 				})
-				if n == 1 && def != nil {
-					return ast.Unparen(def)
-				}
-				return e
 			}
-			isMax := func(e ast.Expr) bool { return FieldOfSelector(pinfo, resolve(e)) == maxF }
-			isLenFrames := func(e ast.Expr) bool {
-				ce, ok := resolve(e).(*ast.CallExpr)
-				if !ok || len(ce.Args) != 1 {
-					return false
-				}
-				id, ok := ast.Unparen(ce.Fun).(*ast.Ident)
-				return ok && id.Name == "len" && FieldOfSelector(pinfo, ce.Args[0]) == frames
+			if !found {
+				obs = append(obs, mkOb(c, "HEIGHT.check-chain", u, "physical check", fd, Violated, "no comparison of MaxHeightPhysical with len(Frames) is made by PushFID or its checking helpers", true))
+				return obs
 			}
-			isZero := func(e ast.Expr) bool { v, ok := intConst(pinfo, e); return ok && v == 0 }
-			// atoms:  "on"   = MaxHeightPhysical > 0      "full" = len(Frames) >= MaxHeightPhysical
-			cls := func(e ast.Expr) (string, bool) {
-				be, ok := ast.Unparen(e).(*ast.BinaryExpr)
-				if !ok {
-					return "", false
-				}
-				op := be.Op
-				x, y := be.X, be.Y
-				flip := func(o token.Token) token.Token {
-					switch o {
-					case token.LSS:
-						return token.GTR
-					case token.LEQ:
-						return token.GEQ
-					case token.GTR:
-						return token.LSS
-					case token.GEQ:
-						return token.LEQ
-					}
-					return o
-				}
-				switch {
-				case isMax(x) && isZero(y): // max OP 0
-				case isZero(x) && isMax(y):
-					x, y, op = y, x, flip(op)
-				case isLenFrames(x) && isMax(y): // len OP max
-					switch op {
-					case token.GEQ:
-						return "full", false
-					case token.LSS:
-						return "full", true
-					}
-					return "", false
-				case isMax(x) && isLenFrames(y): // max OP len
-					switch op {
-					case token.LEQ:
-						return "full", false
-					case token.GTR:
-						return "full", true
-					}
-					return "", false
-				default:
-					return "", false
-				}
-				switch op { // max OP 0
-				case token.GTR:
-					return "on", false
-				case token.LEQ:
-					return "on", true
-				}
-				return "", false
+			// chained: PushFID's store is behind it (HEIGHT.push-check decides the store; here: the chain exists)
+			if len(c.physicalPermitEdges(c.cfgOf(u, nil), maxF, frames, 0)) > 0 {
+				obs = append(obs, mkOb(c, "HEIGHT.check-chain", u, "physical check", fd, Proved, "the physical test in "+pu.Name()+" reaches PushFID as a guard (its error is handed on by every helper in between)", true))
+			} else {
+				obs = append(obs, mkOb(c, "HEIGHT.check-chain", u, "physical check", fd, Violated, "the physical height test in "+pu.Name()+" does not guard PushFID: a helper in between drops its error", true))
 			}
+			pfd := pu.Decl
+			pinfo := pu.Pkg.TypesInfo
+			pfc := c.cfgOf(pu, nil)
+			cls := heightCls(pinfo, pfd, maxF, frames)
 			permitEdges := pfc.edgesEntailing(cls, func(v map[string]bool) bool {
 				return v["$has:on"] && !v["on"] || v["$has:full"] && !v["full"]
 			})
-			sawFull := false
-			ast.Inspect(pfd.Body, func(n ast.Node) bool {
-				if e, ok := n.(ast.Expr); ok {
-					if nm, _ := cls(e); nm == "full" {
-						sawFull = true
-					}
-				}
-				return true
-			})
-			if !sawFull {
-				obs = append(obs, mkOb(c, "HEIGHT.check-chain", pu, "inclusive comparison", pfd, Undecided, "no comparison of MaxHeightPhysical with len(Frames) found", false))
-				return obs
-			}
 			bad := false
 			var at ast.Node = pfd
-			for _, b := range pfc.G.Blocks {
-				if !pfc.Live(b) {
-					continue
-				}
-				for _, n := range b.Nodes {
-					rs, ok := n.(*ast.ReturnStmt)
-					if !ok || len(rs.Results) != 1 || !isNilIdent(pinfo, rs.Results[0]) {
+			if pu.Obj == fn {
+				// written in PushFID itself: the store is the thing permitted
+				for _, w := range c.censusFor(nil).WritersOf(frames) {
+					if w.Unit.Obj != fn || w.Kind == "through" {
 						continue
 					}
-					at = rs
-					if pfc.reachableAvoiding(b, permitEdges) {
-						bad = true
+					if loc, ok := pfc.Locate(w.Node); ok {
+						at = w.Node
+						if pfc.reachableAvoiding(loc.B, permitEdges) {
+							bad = true
+						}
+					}
+				}
+			} else {
+				for _, b := range pfc.G.Blocks {
+					if !pfc.Live(b) {
+						continue
+					}
+					for _, n := range b.Nodes {
+						rs, ok := n.(*ast.ReturnStmt)
+						if !ok || len(rs.Results) != 1 || !isNilIdent(pinfo, rs.Results[0]) {
+							continue
+						}
+						at = rs
+						if pfc.reachableAvoiding(b, permitEdges) {
+							bad = true
+						}
 					}
 				}
 			}
@@ -469,4 +398,131 @@ func init() {
 			}
 			return []Obligation{mkOb(c, "POLL.eval-cycles", u, "cycles", rest[0][0].Nodes[0], Violated, "a cycle in eval does not pass checkLimits: unbounded re-evaluation escapes the step budget and cancellation", true)}
 		}})
+}
+
+// heightCls classifies the atoms of the physical height test inside fd:
+//   "on"   = MaxHeightPhysical > 0      "full" = len(Frames) >= MaxHeightPhysical
+// Single-definition local aliases (`limit, height := s.MaxHeightPhysical, len(s.Frames)`) are expanded.
+func heightCls(pinfo *types.Info, pfd *ast.FuncDecl, maxF, frames *types.Var) func(e ast.Expr) (string, bool) {
+	resolve := func(e ast.Expr) ast.Expr {
+		e = ast.Unparen(e)
+		o := identObj(pinfo, e)
+		if o == nil {
+			return e
+		}
+		var def ast.Expr
+		n := 0
+		ast.Inspect(pfd.Body, func(m ast.Node) bool {
+			if as, ok := m.(*ast.AssignStmt); ok && len(as.Lhs) == len(as.Rhs) {
+				for i, l := range as.Lhs {
+					if identObj(pinfo, l) == o {
+						n++
+						def = as.Rhs[i]
+					}
+				}
+			}
+			return true
+		})
+		if n == 1 && def != nil {
+			return ast.Unparen(def)
+		}
+		return e
+	}
+	isMax := func(e ast.Expr) bool { return FieldOfSelector(pinfo, resolve(e)) == maxF }
+	isLenFrames := func(e ast.Expr) bool {
+		ce, ok := resolve(e).(*ast.CallExpr)
+		if !ok || len(ce.Args) != 1 {
+			return false
+		}
+		id, ok := ast.Unparen(ce.Fun).(*ast.Ident)
+		return ok && id.Name == "len" && FieldOfSelector(pinfo, ce.Args[0]) == frames
+	}
+	isZero := func(e ast.Expr) bool { v, ok := intConst(pinfo, e); return ok && v == 0 }
+	flip := func(o token.Token) token.Token {
+		switch o {
+		case token.LSS:
+			return token.GTR
+		case token.LEQ:
+			return token.GEQ
+		case token.GTR:
+			return token.LSS
+		case token.GEQ:
+			return token.LEQ
+		}
+		return o
+	}
+	return func(e ast.Expr) (string, bool) {
+		be, ok := ast.Unparen(e).(*ast.BinaryExpr)
+		if !ok {
+			return "", false
+		}
+		op := be.Op
+		x, y := be.X, be.Y
+		switch {
+		case isMax(x) && isZero(y): // max OP 0
+		case isZero(x) && isMax(y):
+			x, y, op = y, x, flip(op)
+		case isLenFrames(x) && isMax(y): // len OP max
+			switch op {
+			case token.GEQ:
+				return "full", false
+			case token.LSS:
+				return "full", true
+			}
+			return "", false
+		case isMax(x) && isLenFrames(y): // max OP len
+			switch op {
+			case token.LEQ:
+				return "full", false
+			case token.GTR:
+				return "full", true
+			}
+			return "", false
+		default:
+			return "", false
+		}
+		_, _ = x, y
+		switch op { // max OP 0
+		case token.GTR:
+			return "on", false
+		case token.LEQ:
+			return "on", true
+		}
+		return "", false
+	}
+}
+
+// physicalPermitEdges: the edges of fc that establish `the physical height
+// limit is off or len(Frames) < MaxHeightPhysical`: written in place, or the
+// nil result of a helper that can return nil only across such an edge of its
+// own (recursively, depth 3).
+func (c *Ctx) physicalPermitEdges(fc *FCFG, maxF, frames *types.Var, depth int) []cfgEdge {
+	var fd *ast.FuncDecl
+	for d, p := range c.pkgOf {
+		if d.Body == fc.Body && p != nil {
+			fd = d
+		}
+	}
+	var out []cfgEdge
+	if fd != nil {
+		cls := heightCls(fc.Info, fd, maxF, frames)
+		full := false
+		ast.Inspect(fd.Body, func(n ast.Node) bool {
+			if e, ok := n.(ast.Expr); ok {
+				if nm, _ := cls(e); nm == "full" {
+					full = true
+				}
+			}
+			return true
+		})
+		if full {
+			out = append(out, fc.edgesEntailing(cls, func(v map[string]bool) bool {
+				return v["$has:on"] && !v["on"] || v["$has:full"] && !v["full"]
+			})...)
+		}
+	}
+	if depth < 3 {
+		out = append(out, c.nilResultGuardEdges(fc, func(h *FCFG) []cfgEdge { return c.physicalPermitEdges(h, maxF, frames, depth+1) })...)
+	}
+	return out
 }
